@@ -104,7 +104,7 @@ class Hierarchy:
         return bytes(make_data(SITE + [C(b'data'), C(suffix)], MetaInfo(), b'content-' + suffix, s))
 
 
-DEVIATIONS = ['none', 'none', 'wrong-issuer-level', 'forged-signature', 'substituted-key', 'cert-timeout', 'cert-nack', 'unsigned',
+DEVIATIONS = ['none', 'none', 'hmac-with-public-key', 'wrong-issuer-level', 'forged-signature', 'substituted-key', 'cert-timeout', 'cert-nack', 'unsigned',
               'no-key-locator', 'locator-loop', 'foreign-hierarchy', 'digest-signed']
 
 
@@ -194,6 +194,22 @@ def build_case(rng, depth, dev, link=None):
             import hashlib
             H.cert_wires[link] = rc.make_data(r['name'], content=r['content'], content_type=2, freshness=3600000, sig_type=0,
                                               sign=lambda b: hashlib.sha256(b).digest())
+    elif dev == 'hmac-with-public-key':
+        # type confusion: SignatureType HMAC computed with the *public* key bytes of the named certificate as the secret
+        valid = False
+        from ndn.security.signer.sha256_hmac_signer import HmacSha256Signer
+        if link == depth + 1:
+            lvl = depth
+            data = bytes(make_data(SITE + [C(b'data'), C(suffix)], MetaInfo(), b'forged', HmacSha256Signer(H.cert_names[lvl], H.keys[lvl].pub)))
+        else:
+            lvl = min(link, depth)
+            k = Key(rng, 'ec', H.keys[lvl].name)
+            name, wire = derive_cert(k.name, 'iss', k.pub, HmacSha256Signer(H.cert_names[lvl - 1], H.keys[lvl - 1].pub), START, 86400 * 3650)
+            H.keys[lvl] = k
+            H.cert_names[lvl] = [bytes(c) for c in name]
+            H.cert_wires[lvl] = bytes(wire)
+            for l2 in range(lvl + 1, depth + 1):
+                H.issue(l2, Key(rng, 'ec', H.keys[l2].name), l2 - 1, replace=True)
     elif dev == 'locator-loop':
         valid = False
         lvl = min(link, depth)
@@ -252,7 +268,7 @@ async def validate(validator, wire):
 
 
 def check_single(ctx, rng):
-    n = ctx.n(192, 6000)
+    n = ctx.n(208, 6500)
     for i in range(n):
         depth = rng.randint(1, 4)
         dev = DEVIATIONS[i % len(DEVIATIONS)]
@@ -316,10 +332,10 @@ def check_single(ctx, rng):
 
 def check_anchor(ctx, rng):
     """Construction must be refused for anchors that do not match the roots of trust or are not properly self-signed."""
-    for i in range(ctx.n(24, 600)):
+    for i in range(ctx.n(28, 700)):
         depth = rng.randint(1, 3)
         H = Hierarchy(rng, depth, '%04x' % rng.getrandbits(16))
-        kind = ['ok', 'wrong-name', 'level-cert-as-anchor', 'not-self-signed', 'tampered', 'data-as-anchor'][i % 6]
+        kind = ['ok', 'wrong-name', 'level-cert-as-anchor', 'not-self-signed', 'tampered', 'data-as-anchor', 'hmac-self-signed'][i % 7]
         k0 = H.keys[0]
         if kind == 'ok':
             anchor = H.cert_wires[0]
@@ -331,6 +347,9 @@ def check_anchor(ctx, rng):
         elif kind == 'not-self-signed':
             other = Key(rng, 'ec', k0.name)
             anchor = bytes(self_sign(k0.name, k0.pub, other.signer(k0.name))[1])      # right name, signed by another key
+        elif kind == 'hmac-self-signed':
+            from ndn.security.signer.sha256_hmac_signer import HmacSha256Signer
+            anchor = bytes(self_sign(k0.name, k0.pub, HmacSha256Signer(k0.name, k0.pub))[1])     # "signed" with the public key as HMAC secret
         elif kind == 'tampered':
             anchor = flip_sig(H.cert_wires[0])
         else:
